@@ -36,6 +36,8 @@ Decided (DESIGN.md section 5, C09):
                                      guards the pull call: m_stream_end = true, m_buffer = nullptr) and that can execute after a
                                      stream end is guarded by a test that the library's unconsumed input is empty (count from
                                      BZ2_bzReadGetUnused == 0, avail_in == 0); feof() does not count; never executes under "more"
+    X5-probed-byte-pushed-back       (FILE-based pull) when an end-of-file probe (fgetc ...) returned a byte, every path on to the next
+                                     pull / return passes ungetc() of that byte
     X3-unused-copied-before-close    the pointer obtained from BZ2_bzReadGetUnused (it points into the handle) is not read after
                                      BZ2_bzReadClose
     X4-reopen-receives-unused        the BZ2_bzReadOpen that starts the next stream is given data derived from both outputs of
@@ -47,7 +49,7 @@ Decided (DESIGN.md section 5, C09):
                                      try whose catch (...) forwards current_exception() to the queue
     T2-every-chunk-forwarded         ... every chunk read is pushed to the queue unless at_end_of_data(chunk) held
 
-Findings on today's tree: F20 (X2, Bzip2Decompressor: end declared on "no unused bytes" without an end-of-file probe).  Earlier the rules found F5a (X2), F5b (X1 / X2 / N1) and F11 (N1); all three are fixed in the repository
+Findings: none on today's tree.  The rules found F20 (X2, no end-of-file probe; fixed) and earlier F5a (X2), F5b (X1 / X2 / N1) and F11 (N1); all three are fixed in the repository
 and their reverted fixes are mutants.
 
 Normal form.  The path rules (S1, N1, X1-X4, K1, K2, T1, T2) do not look at read() / close() / run_in_thread as written but at
@@ -74,7 +76,7 @@ from ..c08_util import in_io_layer
 from ..c09_util import (DECOMP, RTM, OPEN_CLOSE, dedupe, decompressor_classes, read_path_functions, method_of, pull_calls,
                         call_name, assume, walk_from, returned_local, stream_field, count_resizes, count_test_elements,
                         unconsumed_zero_guard, guard_signature, end_declarations, string_call_on, STRING_MUTATORS, addr_carrier,
-                        field_assigned_from, data_sources, handle_arg_is, helper_reaches, normalized, state_env, input_test_elements, LOCAL_IGNORABLE, OFFSET_COMPRESSED, OFFSET_UNCOMPRESSED, file_has_more_env, resolve_alias, no_output_env, has_output_env, on_normal_path, is_stream_member, catch_all_handler, nodes_in_handler, must_pass, is_exit, scn, reaches,
+                        field_assigned_from, data_sources, handle_arg_is, helper_reaches, normalized, state_env, input_test_elements, EOF_PROBES, LOCAL_IGNORABLE, OFFSET_COMPRESSED, OFFSET_UNCOMPRESSED, file_has_more_env, resolve_alias, no_output_env, has_output_env, on_normal_path, is_stream_member, catch_all_handler, nodes_in_handler, must_pass, is_exit, scn, reaches,
                         assigned_from)
 from ..flow import path_search, describe_path
 
@@ -83,13 +85,9 @@ NS = 'osmium::io::'
 # genuine findings on the pristine tree: (rule, key, explanation).  Reported with R.bad; the coordinator decides between a
 # repository fix and a known_findings.txt line.
 KNOWN = [
-    ('X2-end-only-when-input-consumed', NS + 'Bzip2Decompressor::read#end-declared@stream-end+unused-empty',
-     'F20 (replayed by the tester). libbz2 reads the FILE in 5000-byte blocks; when a stream ends exactly on a block boundary '
-     'BZ2_bzReadGetUnused reports 0 unused bytes although the file continues, and read() sets m_stream_end: every following stream '
-     'is dropped silently (fd reader 4495 bytes, buffer reader 4715). "No unused bytes" is evidence of the end only together with a '
-     'positive end-of-file probe on the FILE (fgetc() == EOF / feof() after such a probe); accepted fixed shape: '
-     'if (num_unused != 0) reopen(unused) else { c = fgetc(f); if (c == EOF) m_stream_end = true; else { ungetc(c, f); reopen(nullptr, 0); } }'),
-    # History: F5a (X2, Bzip2Decompressor: feof taken for end of input) fixed in /repo 6479008; F11 (N1, Bzip2Decompressor:
+    # none today.
+    # History: F20 (X2, Bzip2Decompressor: end declared on "no unused bytes" without an end-of-file probe on the FILE) fixed in
+    # /repo 535c442; F5a (X2, Bzip2Decompressor: feof taken for end of input) fixed in /repo 6479008; F11 (N1, Bzip2Decompressor:
     # empty chunk after the reopen) fixed in 393c506; F5b (X1 / X2 / N1, both buffer decompressors: single stream only, truncated input
     # accepted) fixed in f507134.  The reverted fixes are mutants (selftest/mutants/fixes.py and the F11 / F5b block of mutants/c09.py).
 ]
@@ -428,6 +426,25 @@ def _one_pull(fb, R, fn, call, pull, X):
                     'silently' % (fn.expr(did), sname, pull.unused[1]),
                     'the end is declared only behind a positive end-of-file probe on the FILE')
 
+    # ---- X5: a byte fetched by an end-of-file probe belongs to the next stream and is pushed back
+    if pull.file_arg is not None:
+        for pr in [n for n in fn.all_nodes() if E.is_extern_c(n) and n['q'] in EOF_PROBES and n['id'] in o_end.reached]:
+            pv = assigned_from(fn, pr)
+            backs = set()
+            for u in fn.all_nodes():
+                if E.is_extern_c(u) and u['q'] == 'ungetc' and u.get('args'):
+                    a0 = resolve_alias(fn, u['args'][0])
+                    if a0 is not None and (a0.get('id') == pr['id'] or (pv is not None and a0.get('k') == 'var' and a0.get('d') == pv)):
+                        backs.add(u['id'])
+            env5 = dict(file_has_more_env(fn, call))     # a byte was read: feof() after the probe is false, the push-back succeeds
+            env5[('node', pr['id'])] = E.ge(0)
+            o5 = walk_from(fb, fn, pr, site=call['id'], stop_at=backs, env=env5, seeded=True)
+            ok5 = o5 is not None and not o5.exits and not o5.retry and not o5.truncated
+            R.check(ok5, 'X5-probed-byte-pushed-back', '%s#%s-byte-pushed-back' % (fn.q, pr['q']), fn.loc(pr['id']),
+                    'when the end-of-file probe %s() returns a byte (the first byte of the next stream) read() can go on without '
+                    'ungetc() of that byte: the next stream loses its first byte (bad magic / data error instead of the data)' % pr['q'],
+                    'every path with a byte read passes ungetc of that byte')
+
     # ---- X3 / X4: handling of the unused bytes (query convention only)
     if pull.unused and pull.unused[0] == 'query':
         _unused_rules(fb, R, fn, call, pull, o_end, reinits)
@@ -693,6 +710,8 @@ def run(ctx):
     R.expect('T2-every-chunk-forwarded', 1)
     # X3 / X4 exist while a decompressor uses the BZ2_bzReadGetUnused convention (Bzip2Decompressor).  Dropping the reopen is an X1
     # violation, reopening without the query an X4 violation (both outrank the floor); a redesign without that API is unknown shape.
+    R.expect('X5-probed-byte-pushed-back', 0)        # 1 today (the fgetc probe of Bzip2Decompressor::read); exists only while a
+    #                                                  byte probe is used -- dropping the probe is an X2 violation, not a floor breach
     R.expect('X3-unused-copied-before-close', 1)
     R.expect('X4-reopen-receives-unused', 1)
 
@@ -709,7 +728,9 @@ def _selftest(fb, R):
     read_thread_rules(fb, R)
     # the conforming twins must stay silent: several rules fire on today's tree, this is their evidence that they can pass
     wrong = [(i.rule, i.key) for i in R.instances.values() if not i.ok and '::Good' in i.key]
-    need = [('N2-retry-only-with-input-left', NS + 'GoodGzipBufferDecompressor::read#inflate:Z_OK:input-exhausted'),
+    need = [('X5-probed-byte-pushed-back', NS + 'GoodBzip2Decompressor::read#fgetc-byte-pushed-back'),
+            ('O1-offset-is-compressed-position', NS + 'GoodBzip2Decompressor::read#offset-source'),
+            ('N2-retry-only-with-input-left', NS + 'GoodGzipBufferDecompressor::read#inflate:Z_OK:input-exhausted'),
             ('S2-no-pull-again-over-data', NS + 'GoodGzipBufferDecompressor::read#inflate:Z_OK'),
             ('S2-no-pull-again-over-data', NS + 'GoodBzip2Decompressor::read#BZ2_bzRead:BZ_OK'),
             ('X1-stream-end-continues', NS + 'GoodGzipBufferDecompressor::read#inflate:next-stream-started'),
@@ -741,4 +762,5 @@ SELFTESTS = [(r, 'c09_decomp.cpp', _selftest) for r in (
     'E1-read-error-reaches-throw', 'E1-nothrow-explicit-discard', 'S1-chunk-length-is-library-count', 'N1-no-empty-chunk-while-more',
     'N2-retry-only-with-input-left', 'S2-no-pull-again-over-data', 'O1-offset-is-compressed-position',
     'X1-stream-end-continues', 'X2-end-only-when-input-consumed', 'X3-unused-copied-before-close', 'X4-reopen-receives-unused',
+    'X5-probed-byte-pushed-back',
     'K1-close-closes-library-handle', 'K2-handle-reset-before-throw', 'T1-read-thread-closes-in-try', 'T2-every-chunk-forwarded')]
